@@ -65,7 +65,7 @@ def run(chk):
     chk.prove()
     n = 36 if chk.quick else 600
     broken = bool(chk.proof_broken)
-    specs = pitcheck.specs_for(chk, n, {'excl': True, 'unsupported': True})
+    specs = pitcheck.specs_for(chk, n, {'excl': True, 'unsupported': True, 'reuse': True})
     results = pitcheck.run_nets(chk, specs)
     n_unsup = 0
     for r, assigns in results:
@@ -84,6 +84,17 @@ def run(chk):
                               dict(pitcheck.case_id(r), kind='net'))
             continue
         for a, head, rows in assigns:
+            if head.get('err') == 'no-request':
+                # a layer invoked twice per forward: not in the bookkeeping model, oracle only
+                chk.count((tuple(r['prog']), a['style'], r['spec']['seed']), nontrivial=True, bucket='layer-invoked-twice',
+                          sample={'prog': r['prog'], 'style': a['style']})
+                _oracle(chk, r, a, head, rows)
+                if a.get('export_diff') and not a.get('export_error'):
+                    chk.violation('C09:layer-invoked-twice:features-not-tied',
+                                  'a layer invoked twice: exported network computes another function (%s): the features of '
+                                  'its call sites / of the tensors it is applied to are not the same' % a['export_diff'],
+                                  dict(pitcheck.case_id(r, a), kind='net'))
+                continue
             if 'err' in head:
                 chk.corr(pitcheck.case_id(r, a), 'ok', head['err'], 'model could not label the program')
                 continue
